@@ -58,7 +58,10 @@ Theorem C03_view_meets_spec : forall ls view,
 Proof. exact view_meets_spec. Qed.
 
 (** The order in which [merge()] applies the levels, and the suffix preference,
-    are the documented ones. *)
+    are the documented ones.  NOTE: this is a restatement of the model's own
+    tables ([level_order], [file_suffixes]) -- it says the model was written to
+    the documented order, nothing about the source.  The tie to the source text
+    is the next theorem, [C03_order_matches_source]. *)
 Theorem C03_order_is_documented :
   level_order = ["defaults"; "collection"; "system"; "user"; "project"; "env"; "runtime";
                  "overrides"; "modifications"] /\
@@ -136,6 +139,16 @@ Theorem C03_later_candidates_irrelevant : forall fs fs' loc,
   first_existing fs loc = first_existing fs' loc ->
   try_suffixes fs loc file_suffixes = try_suffixes fs' loc file_suffixes.
 Proof. exact later_candidates_irrelevant. Qed.
+
+(** ABSENT: a theorem "for EVERY load script the model's run is accepted by the
+    whole executable [spec_ok]" (levels read off the script by [supplied_of], the
+    environment level, the suffixes read, every prefix of the script).  What is
+    proved are its pieces -- the view against the oracle ([C03_highest_level_wins],
+    [C03_view_meets_spec]), the first-existing-suffix rule ([C03_first_suffix_only]),
+    load-order irrelevance, and the environment level (C16's theorems) -- but not
+    that [supplied_of] reads off a script the same level contents the model ends
+    up with.  That composition is only swept (next theorem) and exercised by the
+    correspondence on every run. *)
 
 (** A test, not the property: for two constructor settings (lazy/empty and
     eager with defaults+overrides), every script of at most 2 load calls from a
